@@ -31,7 +31,7 @@ class Universe:
         vlib.build_harness("rt", features=("import-esm",) if esm else (), extra_env={"CARGO_TARGET_DIR": self.target})
         self.rt = os.path.join(self.target, "release", "rt")
         self.sandbox = vlib.shm_dir("exp")
-        out = os.path.join(vlib.BUILD, "universe-%d.json" % os.getpid())
+        out = os.path.join(vlib.TMP, "universe-%d.json" % os.getpid())
         # measure in a directory of the same shape as the replay directories
         mdir = os.path.join(self.sandbox, "w0", "c")
         os.makedirs(mdir)
@@ -167,12 +167,12 @@ def free_alphabet(calls):
 
 def replay(u, histories, tag):
     """histories: list of dict(hid, init, steps) in harness format -> (observations by hid, blobs)"""
-    hpath = os.path.join(vlib.BUILD, "hist-%s.ndjson" % tag)
+    hpath = os.path.join(vlib.TMP, "hist-%s.ndjson" % tag)
     vlib.write_ndjson(hpath, histories)
     procs = []
     for k in range(NWORK):
-        out = os.path.join(vlib.BUILD, "hobs-%s-%d.ndjson" % (tag, k))
-        bl = os.path.join(vlib.BUILD, "hblob-%s-%d.json" % (tag, k))
+        out = os.path.join(vlib.TMP, "hobs-%s-%d.ndjson" % (tag, k))
+        bl = os.path.join(vlib.TMP, "hblob-%s-%d.json" % (tag, k))
         procs.append((subprocess.Popen([u.rt, "history", u.sandbox, hpath, out, bl, str(k), str(NWORK)]), out, bl))
     obs, blobs = {}, {}
     for p, out, bl in procs:
@@ -260,10 +260,10 @@ def adjudicate(u, const_path, cases, obs, blobs, init_kind, tag, stats):
         for idx, so in zip(c["hist"], o["steps"]):
             steps.append({"idx": idx, "ret": so["ret"], "poisoned": so["poisoned"], "tree": tr(so["tree"])})
         recs.append({"hid": c["hid"], "init": init_kind, "init_tree": tr(o["init_tree"]), "steps": steps})
-    tpath = os.path.join(vlib.BUILD, "trace-%s.ndjson" % tag)
-    bpath = os.path.join(vlib.BUILD, "blobs-%s.json" % tag)
-    ppath = os.path.join(vlib.BUILD, "paths-%s.json" % tag)
-    trpath = os.path.join(vlib.BUILD, "trees-%s.json" % tag)
+    tpath = os.path.join(vlib.TMP, "trace-%s.ndjson" % tag)
+    bpath = os.path.join(vlib.TMP, "blobs-%s.json" % tag)
+    ppath = os.path.join(vlib.TMP, "paths-%s.json" % tag)
+    trpath = os.path.join(vlib.TMP, "trees-%s.json" % tag)
     json.dump(trees, open(trpath, "w"))
     vlib.write_ndjson(tpath, recs)
     json.dump(btab, open(bpath, "w"))
